@@ -74,11 +74,19 @@ TEXT["C06"] = dict(
     design_ref="§5.2, §5.3, §6 C06",
     level_note="Trusted base: the Go toolchain incl. the race detector, rapid, the source rewriter (text-offset insertion of yields, line numbers preserved) and the 150-line scheduler/lock shim. File operations between two yields are atomic; kernel-level partial writes are out of reach. /repo is not modified: rewritten sources are supplied through -overlay.")
 
+TEXT["C07"]["engine"] = "wb+bb"
+TEXT["C07"]["technique"] += "; cross-checked by a black-box stage with the real test runner (real -test.count / -test.run, Clean called from TestMain)"
+TEXT["C20"]["engine"] = "wb+bb"
+TEXT["C20"]["technique"] += "; plus an all-entry-points scenario and a black-box stage comparing the summary printed by a real process with what its tests were signalled"
+TEXT["C01"]["technique"] += "; plus a native coverage-guided fuzz target in the thorough tier"
+TEXT["C02"]["technique"] += "; plus a native coverage-guided fuzz target in the thorough tier"
+TEXT["C13"]["technique"] += "; plus a native coverage-guided fuzz target in the thorough tier"
+
 NOT_APPLICABLE = {}
 
 ENGINES = [
     dict(name="sched", path="/verif/sched", serves_properties=["C06"], kind_free_text="controlled scheduler: go/parser based rewriter inserting yields, cooperative sync shim, schedule-driven runner"),
-    dict(name="bb", path="/verif/bb", serves_properties=["C05", "C08", "C11"], kind_free_text="black-box rapid properties driving a compiled, data-driven test program (real testing runner, TestMain, environment) as sub-processes"),
+    dict(name="bb", path="/verif/bb", serves_properties=["C05", "C07", "C08", "C11", "C20"], kind_free_text="black-box rapid properties driving a compiled, data-driven test program (real testing runner, TestMain, environment) as sub-processes"),
     dict(name="race", path="/verif/wb", serves_properties=["C06", "C12"], kind_free_text="the white-box binary built with -race; generated goroutine mixes"),
     dict(name="wb", path="/verif/wb", serves_properties=["C01","C02","C03","C04","C07","C09","C10","C12","C13","C14","C15","C16","C17","C18","C19","C20"], kind_free_text="white-box rapid properties compiled into package snaps via go test -overlay"),
 ]
